@@ -19,6 +19,8 @@ CONSTANTS
   NsCachesInit = TRUE
   EmbNullChecked = FALSE
   OverflowWrapped = TRUE
+  InstOffsetAll = TRUE
+  OpenPrecheck = TRUE
 INVARIANT TypeOK
 INVARIANT ImplRefinesReq
 INVARIANT PositionFileOK
